@@ -120,6 +120,14 @@ def check_chips(seed, count):
             }
             if len(set(explicit)) == 1:
                 writings['number'] = explicit[0]
+            # the chip types pokerkit documents besides int: the same layout in each of them
+            from decimal import Decimal
+            from fractions import Fraction
+            for tname, T in (('float', float), ('fraction', Fraction), ('decimal', Decimal)):
+                writings[f'list_{tname}'] = [T(x) for x in explicit]
+                writings[f'mapping_{tname}'] = {i: T(x) for i, x in enumerate(explicit)}
+                if len(set(explicit)) == 1:
+                    writings[f'number_{tname}'] = T(explicit[0])
             for wname, w in writings.items():
                 try:
                     got = list(putil.clean_values(w, n))
